@@ -64,6 +64,7 @@ structure Inv (w : W) : Prop where
   tasksLt : ∀ j ∈ w.tasks, j < w.nextJob
   newLt : ∀ j ∈ vals w.new, j < w.nextJob
   fix : w.cfg.f19 = true
+  tasksAll : ∀ j, j < w.nextJob → j ∈ w.tasks ∨ j ∈ vals w.new
 
 theorem inv_init : Inv (init { f19 := true }) := by
   constructor <;> simp [init, vals]
@@ -73,7 +74,7 @@ theorem inv_mint (w : W) (t : Nat) (h : Inv w) :
     Inv (mintId w t).2 ∧ (∀ e ∈ w.jobs, e.1 ≠ (mintId w t).1) ∧ (∀ e ∈ w.new, e.1 ≠ (mintId w t).1)
       ∧ (mintId w t).1.2 < counterOf (mintId w t).2 (mintId w t).1.1 := by
   have hle := counterOf_mint_le w t
-  refine ⟨⟨h.reg, h.newKeys, h.disj, ?_, ?_, ?_, h.tasksLt, h.newLt, h.fix⟩, ?_, ?_, ?_⟩
+  refine ⟨⟨h.reg, h.newKeys, h.disj, ?_, ?_, ?_, h.tasksLt, h.newLt, h.fix, h.tasksAll⟩, ?_, ?_, ?_⟩
   · intro k hk; exact Nat.lt_of_lt_of_le (h.freshIds k hk) (hle _)
   · intro e he; exact Nat.lt_of_lt_of_le (h.freshJobs e he) (hle _)
   · intro e he; exact Nat.lt_of_lt_of_le (h.freshNew e he) (hle _)
@@ -89,7 +90,15 @@ theorem inv_mint (w : W) (t : Nat) (h : Inv w) :
 theorem inv_startWith (w : W) (k : Key) (h : Inv w) (hj : ∀ e ∈ w.jobs, e.1 ≠ k) (hn : ∀ e ∈ w.new, e.1 ≠ k)
     (hf : k.2 < counterOf w k.1) : Inv (startWith w k) := by
   have hins : ins k w.nextJob w.new = (k, w.nextJob) :: w.new := ins_fresh k _ _ hn
-  refine ⟨?_, ?_, ?_, h.freshIds, h.freshJobs, ?_, ?_, ?_, h.fix⟩
+  refine ⟨?_, ?_, ?_, h.freshIds, h.freshJobs, ?_, ?_, ?_, h.fix, ?_⟩
+  rotate_right
+  · intro j hjlt
+    simp only [startWith, hins, vals, List.map_cons, List.mem_cons] at hjlt ⊢
+    by_cases hjn : j = w.nextJob
+    · exact Or.inr (Or.inl hjn)
+    · rcases h.tasksAll j (by omega) with h1 | h1
+      · exact Or.inl h1
+      · exact Or.inr (Or.inr h1)
   · intro j hjlt
     simp only [startWith, hins, vals, List.map_cons, List.mem_cons] at hjlt ⊢
     by_cases hjn : j = w.nextJob
@@ -122,10 +131,10 @@ theorem inv_ids (w : W) (k : Key) (h : Inv w) (hf : k.2 < counterOf w k.1) : Inv
     intro k' hk'
     rcases List.mem_append.1 hk' with hk' | hk'
     · exact h.freshIds k' hk'
-    · simp only [List.mem_singleton] at hk'; subst hk'; exact hf, h.freshJobs, h.freshNew, h.tasksLt, h.newLt, h.fix⟩
+    · simp only [List.mem_singleton] at hk'; subst hk'; exact hf, h.freshJobs, h.freshNew, h.tasksLt, h.newLt, h.fix, h.tasksAll⟩
 
 theorem inv_out (w : W) (r : Res) (h : Inv w) : Inv { w with out := r :: w.out } :=
-  ⟨h.reg, h.newKeys, h.disj, h.freshIds, h.freshJobs, h.freshNew, h.tasksLt, h.newLt, h.fix⟩
+  ⟨h.reg, h.newKeys, h.disj, h.freshIds, h.freshJobs, h.freshNew, h.tasksLt, h.newLt, h.fix, h.tasksAll⟩
 
 theorem inv_step (w : W) (op : Op) (h : Inv w) : Inv (step w op) := by
   cases op with
@@ -180,7 +189,7 @@ theorem inv_endAction (w : W) (h : Inv w) :
       simp only [vals, List.mem_map] at this ⊢
       obtain ⟨e, he, rfl⟩ := this
       exact ⟨e, List.mem_filter.2 ⟨he, by simpa using hd⟩, rfl⟩
-  refine ⟨⟨?_, ?_, ?_, h.freshIds, ?_, ?_, ?_, ?_, h.fix⟩, ?_⟩
+  refine ⟨⟨?_, ?_, ?_, h.freshIds, ?_, ?_, ?_, ?_, h.fix, ?_⟩, ?_⟩
   · intro j hj
     simp only [endAction, hf]
     rcases key j hj with h1 | h1
@@ -202,6 +211,11 @@ theorem inv_endAction (w : W) (h : Inv w) :
     · exact h.newLt j hj
   · simp [endAction, vals]
   · intro j hj
+    simp only [endAction, List.mem_append]
+    rcases h.tasksAll j hj with h1 | h1
+    · exact Or.inl (Or.inl h1)
+    · exact Or.inl (Or.inr h1)
+  · intro j hj
     simp only [endAction, hf]
     exact key j hj
 
@@ -211,10 +225,10 @@ theorem inv_kill (w : W) (js : List Nat) (h : Inv w) : Inv (kill w js) :=
     · exact Or.inl h1
     · exact Or.inr (Or.inl h1)
     · exact Or.inr (Or.inr (List.mem_append.2 (Or.inl h1))),
-   h.newKeys, h.disj, h.freshIds, h.freshJobs, h.freshNew, h.tasksLt, h.newLt, h.fix⟩
+   h.newKeys, h.disj, h.freshIds, h.freshJobs, h.freshNew, h.tasksLt, h.newLt, h.fix, h.tasksAll⟩
 
 /-- between actions (`new` empty) -/
-def Settled (w : W) : Prop := Inv w ∧ ∀ j, j < w.nextJob → j ∈ vals w.jobs ∨ j ∈ w.dead
+def Settled (w : W) : Prop := Inv w ∧ (∀ j, j < w.nextJob → j ∈ vals w.jobs ∨ j ∈ w.dead) ∧ w.new = []
 
 theorem settled_run (w : W) (script : List (List Op × List Nat)) (h : Settled w) : Settled (run w script) := by
   induction script generalizing w with
@@ -224,7 +238,7 @@ theorem settled_run (w : W) (script : List (List Op × List Nat)) (h : Settled w
     simp only [run]
     apply ih
     obtain ⟨hi, hr⟩ := inv_endAction _ (inv_steps w ops h.1)
-    refine ⟨inv_kill _ ks hi, ?_⟩
+    refine ⟨inv_kill _ ks hi, ?_, by simp [kill, runAction, endAction]⟩
     intro j hj
     rcases hr j hj with h1 | h1
     · exact Or.inl h1
@@ -235,8 +249,8 @@ theorem settled_run (w : W) (script : List (List Op × List Nat)) (h : Settled w
     actions, deletions in between -/
 theorem no_job_outside_the_registry (script : List (List Op × List Nat)) :
     leaked (run (init { f19 := true }) script) = [] ∧ hung (run (init { f19 := true }) script) = [] := by
-  have h : Settled (init { f19 := true }) := ⟨inv_init, by simp [init]⟩
-  obtain ⟨hi, hr⟩ := settled_run _ script h
+  have h : Settled (init { f19 := true }) := ⟨inv_init, by simp [init], rfl⟩
+  obtain ⟨hi, hr, _⟩ := settled_run _ script h
   generalize run (init { f19 := true }) script = w at hi hr
   constructor
   · simp only [leaked, List.filter_eq_nil_iff, List.mem_range]
@@ -245,6 +259,20 @@ theorem no_job_outside_the_registry (script : List (List Op × List Nat)) :
   · simp only [hung, List.filter_eq_nil_iff]
     intro j hj
     rcases hr j (hi.tasksLt j hj) with h1 | h1 <;> simp [stopped, h1]
+
+/-- **an abort quit reaches every job task**: the worker holds the task of every job ever started (dropping `jobtasks` aborts them all) -/
+theorem abort_reaches_every_job_task (script : List (List Op × List Nat)) :
+    abortLeaked (run (init { f19 := true }) script) = [] := by
+  have h : Settled (init { f19 := true }) := ⟨inv_init, by simp [init], rfl⟩
+  obtain ⟨hi, _, hn⟩ := settled_run _ script h
+  generalize run (init { f19 := true }) script = w at hi hn
+  simp only [abortLeaked, List.filter_eq_nil_iff, List.mem_range]
+  intro j hj
+  rcases hi.tasksAll j hj with h1 | h1
+  · simp [h1]
+  · rw [hn] at h1; simp [vals] at h1
+
+example : abortLeaked (run (init { f19 := false }) [([.mint 0, .goc 0, .goc 0], [])]) = [0] := by decide
 
 /-- ids minted by `Id::default()` are pairwise distinct whatever threads mint them -/
 theorem minted_ids_are_fresh (w : W) (t : Nat) (h : Inv w) : (mintId w t).1 ∉ w.ids := by
